@@ -4,3 +4,6 @@ pub mod blk;
 pub mod events;
 pub mod console;
 pub mod net;
+pub mod simple;
+pub mod gpu;
+pub mod sound;
